@@ -276,6 +276,9 @@ def _ops():
     op("triangle.circumcenter", (2, 3), ("tri",), lambda g: g.circumcenter, coll=False)
     op("triangle.area", (2, 3), ("tri",), lambda g: g.area, coll=False)
     op("tetrahedron.volume", (3,), ("tet",), lambda g: g.volume, coll=False)
+    # simplices with fewer vertices than homogeneous coordinates (a triangle of 3-space; Simplex(p, q) is a Segment and has no volume)
+    op("triangle.volume", (2, 3), ("tri",), lambda g: g.volume, coll=False)
+    op("Simplex(p,q,r).volume", (2, 3), ("p0", "p1", "p2"), lambda a, b, c: Simplex(a, b, c).volume, coll=False)
     op("cuboid.area", (3,), ("cub",), lambda g: g.area, coll=False)
     op("cuboid.intersect(l)", (3,), ("cub", "l0"), lambda g, l: g.intersect(l), cmp="multiset", coll=False)
     op("dist(p,cuboid)", (3,), ("p3", "cub"), lambda a, b: dist(a, b), coll=False)
